@@ -44,7 +44,7 @@ def afterJoin (shared : Bool) (schedule : List CStep) : Option Nat :=
 
 /-- executable scheduler: `sched` names, step by step, the worker that moves next; a worker
     that has nothing left (or an index that names nobody) is skipped -/
-def runSchedule (ws : List (List CStep)) : List Nat → List CStep
+def runSchedule {α : Type} (ws : List (List α)) : List Nat → List α
   | [] => []
   | i :: rest =>
     match ws[i]? with
@@ -52,7 +52,7 @@ def runSchedule (ws : List (List CStep)) : List Nat → List CStep
     | _ => runSchedule ws rest
 
 /-- what is left of every worker after the schedule -/
-def remaining (ws : List (List CStep)) : List Nat → List (List CStep)
+def remaining {α : Type} (ws : List (List α)) : List Nat → List (List α)
   | [] => ws
   | i :: rest =>
     match ws[i]? with
